@@ -19,9 +19,8 @@
          NOTE (model behaviour, also true of pydiffx): new_change/new_file do not validate their encoding
          argument, so e.g. encoding='x y' is accepted and yields a header outside the grammar; C02's quantifier
          ("encodings as in C01": codec names) excludes it, and so does [call_args_good];
-     (c) for diff sections (bytes content) the newline is shown to be the one the function computed and the
-         content to end with it (C02_content_ends_with_newline); its identification with
-         get_newline_for_type is only done for text sections (C02_text_section_newline). *)
+     (c) the indentation is characterised through the model's own [split_lines] plus its C16 properties (the lines
+         concatenate to the content and each ends with the newline), not through an independent line splitter. *)
 From Coq Require Import List Arith NArith ZArith Bool Strings.Byte Sorting.Sorted Sorting.Permutation.
 From Coq Require Strings.String.
 From DX Require Import Bytes Res Codec Text Sections Header Json Writer WriterCanonFacts.
@@ -40,7 +39,7 @@ Theorem C02_isort_sorted : forall {A} (leb : A -> A -> bool),
   (forall a b, leb a b = true \/ leb b a = true) ->
   (forall a b c, leb a b = true -> leb b c = true -> leb a c = true) ->
   forall l, StronglySorted (fun a b => leb a b = true) (isort leb l) /\ Permutation l (isort leb l).
-Proof. intros A leb Ht Htr l. split; [apply isort_sorted; assumption|apply isort_perm]. Qed.
+Proof. exact @isort_sorted_perm. Qed.
 Print Assumptions C02_isort_sorted.
 
 Theorem C02_bytes_leb_order :
@@ -82,10 +81,7 @@ Theorem C02_header_shape : forall section opts h, render_header section opts = O
     StronglySorted (fun a b => bytes_leb (fst a) (fst b) = true) (present (sort_opts opts)) /\
     Permutation (present opts) (present (sort_opts opts)) /\
     h = B "#" ++ section ++ B ":" ++ header_tail pairs ++ [x0a].
-Proof.
-  intros section opts h H. destruct (WriterCanonFacts.C02_header_shape section opts h H) as (pairs & HF & E).
-  exists pairs. split; [exact HF|]. split; [apply present_sort_sorted|]. split; [apply present_sort_perm|exact E].
-Qed.
+Proof. exact C02_header_canonical. Qed.
 Print Assumptions C02_header_shape.
 
 Theorem C02_header_ascii : forall section opts h, Forall ascii_byte section ->
@@ -104,7 +100,7 @@ Proof. split; vm_compute; reflexivity. Qed.
 (* int(b'%d' % z) == z as the reader computes it *)
 Theorem C02_decimal_round_trip : forall z, small_int z ->
   convert_value (Z_to_dec z) = VInt z /\ HeaderFacts.spec_val (Z_to_dec z).
-Proof. intros z H. split; [apply convert_value_Z_to_dec; exact H|apply Z_to_dec_spec_val]. Qed.
+Proof. exact decimal_round_trip. Qed.
 Print Assumptions C02_decimal_round_trip.
 
 Theorem C02_small_int_bound : forall z, (Z.abs_N z < 10 ^ 4300)%N -> small_int z.
@@ -229,6 +225,20 @@ Theorem C02_indent_every_line : forall s content k le enc inherit body le_out, (
 Proof. exact WriterCanonFacts.C02_indent_every_line. Qed.
 Print Assumptions C02_indent_every_line.
 
+(* diff sections: same, with the section's own encoding (diffs never inherit; none => ascii) *)
+Theorem C02_bytes_section_newline : forall s b indent le enc inherit body le_out,
+  prepare_content s (CBytes b) indent le enc inherit = Ok (body, le_out) ->
+  exists encoding1 eb lename newline,
+    eff_enc s enc inherit = Ok encoding1 /\
+    (if wv_truthy encoding1 then exists e, encoding1 = WStr e /\ c_enc ascii e = Some eb else eb = B "ascii") /\
+    In lename (map fst GenText.newline_formats) /\
+    le_out = WStr (ascii_text lename) /\ (declared_newline le <> None -> le_out = le) /\
+    get_newline_for_type lename (Some eb) = Ok newline /\
+    newline <> [] /\ TextFacts.unbordered newline /\
+    bends newline body = true.
+Proof. exact WriterCanonFacts.C02_bytes_section_newline. Qed.
+Print Assumptions C02_bytes_section_newline.
+
 (* the whole of write_preamble(text, indent=k): from the API call to the bytes *)
 Theorem C02_preamble_call : forall s t enc k le mt s', (0 < k)%Z ->
   do_call (WritePreamble (WStr t) enc (Some (WInt k)) le mt) s = (s', Ok tt) ->
@@ -260,7 +270,7 @@ Proof. repeat split; vm_compute; reflexivity. Qed.
 
 Theorem C02_sort_kb_sorted : forall kv,
   StronglySorted (fun a b => text_leb (fst a) (fst b) = true) (sort_kb kv) /\ Permutation kv (sort_kb kv).
-Proof. intros kv. split; [apply sort_kb_sorted|apply sort_kb_perm]. Qed.
+Proof. exact sort_kb_sorted_perm. Qed.
 Print Assumptions C02_sort_kb_sorted.
 
 Theorem C02_dump_obj : forall lvl kv, kv <> [] ->
@@ -295,6 +305,21 @@ Print Assumptions C02_json_sorted.
 Theorem C02_json_ascii : forall j d, floats_ascii j -> json_dump j = Ok d -> Forall ascii_byte d.
 Proof. exact WriterCanonFacts.C02_json_ascii. Qed.
 Print Assumptions C02_json_ascii.
+
+(* the whole of write_meta(dict): canonical JSON, encoded in the effective encoding, LF-terminated *)
+Theorem C02_meta_call : forall s kv enc fmt s',
+  do_call (WriteMeta (WDict (JObj kv)) enc fmt) s = (s', Ok tt) ->
+  exists d e eb cb newline fmtv h,
+    kv <> [] /\ json_dump (JObj kv) = Ok d /\
+    eff_enc s enc true = Ok (WStr e) /\ c_enc ascii e = Some eb /\
+    py_encode (ascii_text d) eb = Ok cb /\
+    get_newline_for_type GenText.le_unix (Some eb) = Ok newline /\
+    let body := add_newline newline cb in
+    render_header (build_id (cur_level s) (B "meta"))
+      (content_opts body (WStr (ascii_text GenText.le_unix)) enc WNone false [(B "format", fmtv)]) = Ok h /\
+    w_out s' = w_out s ++ h ++ body.
+Proof. exact WriterCanonFacts.C02_meta_call. Qed.
+Print Assumptions C02_meta_call.
 
 Example C02_json_ex : json_dump ex_json = Ok ex_json_bytes /\ floats_ascii ex_json.
 Proof. split; [vm_compute; reflexivity|exact ex_floats_ascii]. Qed.
@@ -367,9 +392,18 @@ Example C02_run_ex :
   WriterFacts.reachable ex_state /\ Forall call_args_good ex_calls /\
   map fst (fst (run_calls ex_state ex_calls)) = [Ok tt; Ok tt] /\
   w_out (snd (run_calls ex_state ex_calls)) = ex_stream.
-Proof.
-  split; [exact WriterFacts.ex_reachable|]. split; [exact ex_calls_good|]. split; vm_compute; reflexivity.
-Qed.
+Proof. exact ex_run. Qed.
 
 Example C02_enc_good_ex : enc_good (WStr (T "utf-16")) /\ enc_good WNone.
 Proof. exact ex_enc_good. Qed.
+
+(* OBSERVATION (outside the quantifier of C02, which takes encodings from the codec catalogue): new_change /
+   new_file do not validate their encoding argument.  The call new_change(encoding='x y') is accepted and writes a
+   header that is not in the header grammar and that the reader's header parser rejects.  pydiffx behaves the same. *)
+Example C02_container_encoding_unvalidated_ex :
+  exists s',
+    do_call ex_bad_container_call ex_state = (s', Ok tt) /\
+    w_out s' = w_out ex_state ++ B "#.change: encoding=x y" ++ [x0a] /\
+    parse_header (WriterFacts.table (B "diffx")) (B "#.change: encoding=x y") = HErr None /\
+    ~ call_args_good ex_bad_container_call.
+Proof. exact ex_bad_container. Qed.
